@@ -12,6 +12,7 @@ import (
 	"golang.org/x/tools/go/ssa"
 
 	"xpcheck/internal/cfgx"
+	"xpcheck/internal/flow"
 	"xpcheck/internal/load"
 	"xpcheck/internal/report"
 )
@@ -729,4 +730,27 @@ func (c *Ctx) projectionComplete(fn *ssa.Function, what string) {
 		exits, _ := cfgx.OnlyHeaderExits(loop)
 		c.R.Check(len(through) > 0 && !by && exits, load.FuncName(fn)+": "+what, c.pos(firstPos(cfgx.LoopHeader(loop))), "every element of the list yields an element of the result", "the projection can skip an element (or stop early): callers written against the interface never see it", w...)
 	}
+}
+
+// anyCallThrough: v derives from a call of name - directly, or through a helper
+// of the repository (not inlined: it sits in an argument list the inliner leaves
+// alone) whose returned value derives from such a call.
+func anyCallThrough(v ssa.Value, name string) bool {
+	if flow.Default.AnyCall(v, name) {
+		return true
+	}
+	for _, ci := range flow.Default.CallsIn(v) {
+		f := ci.Common().StaticCallee()
+		if f == nil || f.Blocks == nil || f.Pkg == nil || !strings.HasPrefix(f.Pkg.Pkg.Path(), "github.com/crossplane/crossplane/") {
+			continue
+		}
+		for i := 0; i < f.Signature.Results().Len(); i++ {
+			for _, rv := range cfgx.ReturnedValues(f, i) {
+				if flow.Default.AnyCall(rv, name) {
+					return true
+				}
+			}
+		}
+	}
+	return false
 }
